@@ -148,13 +148,25 @@ func genAddr24(t *rapid.T, label string) uint32 {
 
 func TestC04(t *testing.T) {
 	rig.Main(t, "C04", "complete enumeration of all 2^24 bus addresses and all 2^24 pak addresses for each of the 4 mappers "+
-		"(round trip bus->pak->bus->pak; pak->bus->pak keeps class and 8 KiB offset), plus edge-biased rapid samples. "+
+		"(round trip bus->pak->bus->pak; pak->bus->pak keeps class and 8 KiB offset), plus edge-biased rapid samples; a second process repeats the enumeration with the mappers and the two directions in reverse order, before the committed regression cases are replayed (no answer may depend on which function was called first in the process). "+
 		"Every enumerated (mapper, direction, address) is distinct; non-trivial = the first translation succeeds.",
 		func(r *rig.Run) {
 			ev := r.Ev
 			ev.Exhaustive = true
-			for _, m := range mappers {
-				for _, dir := range []string{"bus", "pak"} {
+			// the second shard (a process of its own) makes the same sweep with the mappers and the two directions in reverse
+			// order: a translation must not depend on which mapper or direction was used first in the process; its sweep is
+			// not counted a second time in the evidence
+			order, dirs := mappers, []string{"bus", "pak"}
+			recount := rig.Shard()%2 == 1
+			if recount {
+				order = nil
+				for i := len(mappers) - 1; i >= 0; i-- {
+					order = append(order, mappers[i])
+				}
+				dirs = []string{"pak", "bus"}
+			}
+			for _, m := range order {
+				for _, dir := range dirs {
 					var mf rig.MinFail
 					var mapped int64
 					m, dir := m, dir
@@ -193,6 +205,10 @@ func TestC04(t *testing.T) {
 						_, err, d := mf.Get()
 						r.Violation(m.name+"-"+dir, d, err)
 					}
+					if recount {
+						ev.ClassN("swept-again-with-mappers-and-directions-in-reverse-order(not-counted-as-cases)", 1<<24)
+						continue
+					}
 					ev.Bulk(1<<24, mapped)
 					ev.ClassN(m.name+"/"+dir+"/translated", mapped)
 				}
@@ -206,6 +222,11 @@ func TestC04(t *testing.T) {
 			})
 			ev.Assumption("class windows: ROM < $E00000, SRAM $E00000-$EFFFFF, WRAM $F50000-$FFFFFF (the mirrors $F70000+ count as WRAM), as in the property statement")
 		})
+}
+
+func init() {
+	rig.RegressLate["C04"] = true
+	rig.RegressLate["C05"] = true
 }
 
 var _ = errors.Is
